@@ -9,6 +9,26 @@ import (
 	"go.mongodb.org/mongo-driver/bson"
 )
 
+// constantFilter is the filter of an expression whose answer does not depend on the
+// document: {} selects every document, {$nor: [{}]} selects none.
+func constantFilter(value bool) bson.M {
+	if value {
+		return bson.M{}
+	}
+	return bson.M{"$nor": []bson.M{{}}}
+}
+
+// rangeLimits returns the two bounds of an INSIDE/OUTSIDE/BETWEEN condition. As in
+// the core engine, a value that is not a list of exactly two members matches nothing.
+func rangeLimits(cond *gripql.HasCondition) ([]interface{}, bool) {
+	lims, ok := cond.Value.AsInterface().([]interface{})
+	if !ok || len(lims) != 2 {
+		log.Errorf("expected a list of two values for %s condition", cond.Condition)
+		return nil, false
+	}
+	return lims, true
+}
+
 func convertHasExpression(stmt *gripql.HasExpression, not bool) bson.M {
 	output := bson.M{}
 	switch stmt.Expression.(type) {
@@ -16,30 +36,24 @@ func convertHasExpression(stmt *gripql.HasExpression, not bool) bson.M {
 		cond := stmt.GetCondition()
 		switch cond.Condition {
 		case gripql.Condition_INSIDE:
-			val := cond.Value.AsInterface()
-			lims, ok := val.([]interface{})
-			if !ok {
-				log.Error("unable to cast values from INSIDE statement")
-			} else {
+			if lims, ok := rangeLimits(cond); ok {
 				output = convertHasExpression(gripql.And(gripql.Gt(cond.Key, lims[0]), gripql.Lt(cond.Key, lims[1])), not)
+			} else {
+				output = constantFilter(not)
 			}
 
 		case gripql.Condition_OUTSIDE:
-			val := cond.Value.AsInterface()
-			lims, ok := val.([]interface{})
-			if !ok {
-				log.Error("unable to cast values from OUTSIDE statement")
-			} else {
+			if lims, ok := rangeLimits(cond); ok {
 				output = convertHasExpression(gripql.Or(gripql.Lt(cond.Key, lims[0]), gripql.Gt(cond.Key, lims[1])), not)
+			} else {
+				output = constantFilter(not)
 			}
 
 		case gripql.Condition_BETWEEN:
-			val := cond.Value.AsInterface()
-			lims, ok := val.([]interface{})
-			if !ok {
-				log.Error("unable to cast values from BETWEEN statement")
-			} else {
+			if lims, ok := rangeLimits(cond); ok {
 				output = convertHasExpression(gripql.And(gripql.Gte(cond.Key, lims[0]), gripql.Lt(cond.Key, lims[1])), not)
+			} else {
+				output = constantFilter(not)
 			}
 
 		default:
@@ -52,9 +66,13 @@ func convertHasExpression(stmt *gripql.HasExpression, not bool) bson.M {
 		for _, e := range and.Expressions {
 			andRes = append(andRes, convertHasExpression(e, not))
 		}
-		output = bson.M{"$and": andRes}
-		if not {
+		if len(andRes) == 0 {
+			// an empty conjunction is true ($and/$or refuse an empty array)
+			output = constantFilter(!not)
+		} else if not {
 			output = bson.M{"$or": andRes}
+		} else {
+			output = bson.M{"$and": andRes}
 		}
 
 	case *gripql.HasExpression_Or:
@@ -63,9 +81,13 @@ func convertHasExpression(stmt *gripql.HasExpression, not bool) bson.M {
 		for _, e := range or.Expressions {
 			orRes = append(orRes, convertHasExpression(e, not))
 		}
-		output = bson.M{"$or": orRes}
-		if not {
+		if len(orRes) == 0 {
+			// an empty disjunction is false
+			output = constantFilter(not)
+		} else if not {
 			output = bson.M{"$and": orRes}
+		} else {
+			output = bson.M{"$or": orRes}
 		}
 
 	case *gripql.HasExpression_Not:
@@ -108,9 +130,17 @@ func convertCondition(cond *gripql.HasCondition, not bool) bson.M {
 	case gripql.Condition_LTE:
 		expr = bson.M{"$lte": val}
 	case gripql.Condition_WITHIN:
+		// $in refuses anything but an array; as in the core engine a value that is
+		// not a list contains nothing
+		if _, ok := val.([]interface{}); !ok {
+			return constantFilter(not)
+		}
 		expr = bson.M{"$in": val}
 	case gripql.Condition_WITHOUT:
-		expr = bson.M{"$not": bson.M{"$in": val}}
+		if _, ok := val.([]interface{}); !ok {
+			return constantFilter(!not)
+		}
+		expr = bson.M{"$nin": val}
 	case gripql.Condition_CONTAINS:
 		expr = bson.M{"$in": []interface{}{val}}
 	default:
